@@ -22,7 +22,7 @@ def run(tier, seed):
             raise vlib.ToolError("MC_Stack with Dev = TRUE no longer violates the C04 laws (model vacuous?)")
         rep.cov["deviation_model_counterexample_found"] = True
         q = tier == "quick"
-        res = xc.judge(rep, "stack", 60 if q else 800, seed + 3000, wd, "s", OWNS, jobs=8 if q else 14, known_dev_key=DEVKEY)
+        res = xc.judge(rep, "stack", 60 if q else 2400, seed + 3000, wd, "s", OWNS, jobs=8 if q else 14, known_dev_key=DEVKEY)
         rep.cov["samples"] = [{"family": "stack", "example": sorted(res.distinct)[:3]}]
         xc.finish_cov(rep, res, mc, "Every PUSH/POP/CALL/RET form with RSP anywhere in the stack page (incl. misaligned), at and across both edges of the stack "
                       "area, in read-only and in unmapped memory (a refused access must leave RSP, registers and memory as they were), distinct landing pads in "
